@@ -182,6 +182,13 @@ HUGE = [
     ("comb-source-1e8", {"combine": "by_position", "max_runs": 10, "blocks": [
         {"mode": "combinatorial", "context": {"a": list(range(100))},
          "source": {"format": "json", "path": "big.json", "mode": "combinatorial"}}]}, 10 ** 8),
+    # the source's mode differs from its block's mode (rows-as-runs source inside a combinatorial block, and the reverse)
+    ("comb-block-rows-source-1e9", {"combine": "combinatorial", "max_runs": 1000, "blocks": [
+        {"mode": "combinatorial", "context": {"a": list(range(100)), "b": list(range(100)), "c": list(range(100))},
+         "source": {"format": "json", "path": "big.json"}}]}, 10 ** 9),
+    ("rows-block-comb-source-1e12", {"combine": "combinatorial", "max_runs": 1000, "blocks": [
+        {"mode": "combinatorial", "context": {"a": list(range(1000)), "b": list(range(1000))}},
+        {"mode": "by_position", "source": {"format": "json", "path": "big.json", "mode": "combinatorial"}}]}, 10 ** 12),
 ]
 
 HUGE_SCRIPT = r"""
